@@ -49,6 +49,19 @@ def m_dt_cmp(ctx, args, callee):
     return {'lt': lt, 'le': Or(lt, eq), 'gt': Not(Or(lt, eq)), 'ge': Not(lt), 'eq': eq, 'ne': Not(eq)}[k]
 
 
+@model(r'^<NaiveDateTime as Ord>::cmp$|^<chrono::NaiveDateTime as Ord>::cmp$')
+def m_dt_ord_cmp(ctx, args, callee):
+    x = ctx.deref(args[0]); y = ctx.deref(args[1])
+    lt = Or(x.ts < y.ts, And(x.ts == y.ts, z3.ULT(x.frac(), y.frac()))); eq = And(x.ts == y.ts, x.frac() == y.frac())
+    return EnumV(z3.simplify(If(lt, BitVecVal(-1, 64), If(eq, BitVecVal(0, 64), BitVecVal(1, 64)))), {}, 'Ordering')
+
+
+@model(r'^<NaiveDateTime as (std::default::)?Default>::default$|^<chrono::NaiveDateTime as (std::default::)?Default>::default$')
+def m_dt_default(ctx, args, callee):
+    """documented: the UNIX epoch, 1970-01-01 00:00:00"""
+    return DateTimeV(BitVecVal(0, 64))
+
+
 class RegexV:
     """a compiled regex: identified by its pattern text"""
     __slots__ = ('pat',)
